@@ -752,7 +752,8 @@ def run(ctx):
             gcs = COLLECTORS if not ctx.quick else (["swiper", COLLECTORS[1 + (i + ctx.seed) % 3]] if i % 2 == 0 else ["swiper"])
             for gc in gcs:
                 reqs.append(Req(p, "s", cg, gc))
-            if p["name"] in link_progs:
+            # quick: one executable per code generator is linked (the link step does not depend on the generator)
+            if p["name"] in link_progs and (not ctx.quick or (cg == "cannon") == p["name"].startswith("gen")):
                 reqs.append(Req(p, "exe", cg, "swiper"))
     hist = History(ctx)
     hist.all_reqs = reqs
